@@ -154,7 +154,7 @@ def one_builder(ctx):
     budget = [c for c in calls_in(init.node) if dotted(c.func) == 'len' and c.args and isinstance(c.args[0], ast.Call)
               and isinstance(c.args[0].func, ast.Attribute) and dotted(c.args[0].func.value) == 'self']
     if not budget or not builders:
-        raise AnchorMissing('length budget len(self.<builder>(...)) or sendto payloads not found')
+        raise AnchorMissing('length budget len(self.<builder>(...)) or sendto payloads not found', violation='frappy.protocol.discovery.UDPListener.__init__:budget uses the builder that is sent')
     for c in budget:
         b = c.args[0].func.attr
         ctx.check(b in builders, f'{init.qualname}:budget uses the builder that is sent', c,
@@ -204,7 +204,7 @@ def answer_iff_request(ctx):
     sends = [c for c in calls_in(loop) if call_attr(c) == 'sendto']
     recv = [i for c in calls_in(loop) if call_attr(c) == 'recvfrom' for i in cfg.node_of(c)]
     if not sends:
-        raise AnchorMissing('no sendto in the receive loop')
+        raise AnchorMissing('no sendto in the receive loop', violation='frappy.protocol.discovery.UDPListener.run:discover request is answered')
     if not tests:
         for s in sends:
             ctx.bad(f'{run.qualname}:answer only to discover requests', s,
